@@ -1,10 +1,20 @@
 package json
 
 import (
+	"errors"
 	"fmt"
 
 	"github.com/jsightapi/jsight-schema-go-library/bytes"
 )
+
+// maxExponentZeros is the number of zeros an exponent may add to the written digits.
+// A Number keeps every digit of its decimal expansion, so each of these zeros costs
+// a byte (the 11 bytes of 1e300000000 would take 300 MB). The limit admits the
+// whole range of every IEEE 754 format up to binary128 (1e4932) and decimal128
+// (1e6144), and is the point where strconv.ParseFloat stops reading an exponent.
+const maxExponentZeros = 10000
+
+var errExponentTooLarge = errors.New("the exponent is too large")
 
 type scanner struct {
 	stateFn func(byte) bool
@@ -73,6 +83,10 @@ func (s *scanner) setExp(value bytes.Bytes) error {
 	exp, err := value[s.expBegin:].ParseInt()
 	if err != nil {
 		return err
+	}
+	// Checked before the addition, which could overflow as well.
+	if exp > maxExponentZeros+s.fraLen || -exp > maxExponentZeros+s.intLen {
+		return fmt.Errorf("Incorrect number value %q: %w", value.String(), errExponentTooLarge)
 	}
 	// example with negative exp: 12.34E-1 = 1.234; exp = -1; intLen = 2 + (-1) = 1
 	// example with positive exp: 12.34E+1 = 123.4; exp =  1; intLen = 2 + 1    = 3
